@@ -264,4 +264,485 @@ example : (tx (run w1 [(b1, .bond "alice" [("ustake", 35)]), (b1, .removeHook "a
 example : (tx (run w1 [(b1, .addHook "admin" ⟨true, "refuser"⟩)]) b1 (.bond "alice" [("ustake", 35)])).isOk = false := by
   decide
 
+/-! # History-level theorems (review round) -/
+
+/-! ## Each hook is registered once (closes "exactly one notification per hook" for cw4-stake) -/
+
+/-- How a successful transaction changes the hook list. -/
+theorem hooks_tx {w w' : World} {blk : Block} {op : Op} {out : List Out} (h : tx w blk op = .ok (w', out)) :
+    w'.st.hooks = (match op with
+      | .addHook _ a => w.st.hooks ++ [a.text]
+      | .removeHook _ a => w.st.hooks.erase a.text
+      | _ => w.st.hooks) ∧
+    (∀ s a, op = .addHook s a → a.text ∉ w.st.hooks) := by
+  by_cases ha : Op.isAdminOp op = true
+  · obtain ⟨_, _, _, _, hm⟩ := admin_ops_effect h ha
+    cases op with
+    | updateAdmin snd x => exact ⟨hm, by intro _ _ e; cases e⟩
+    | addHook snd x => exact ⟨hm.2.1, by intro _ _ e; cases e; exact hm.1⟩
+    | removeHook snd x => exact ⟨hm.2.1, by intro _ _ e; cases e⟩
+    | bond _ _ => simp [Op.isAdminOp] at ha
+    | send _ _ _ _ => simp [Op.isAdminOp] at ha
+    | receive _ _ _ _ => simp [Op.isAdminOp] at ha
+    | unbond _ _ => simp [Op.isAdminOp] at ha
+    | claim _ => simp [Op.isAdminOp] at ha
+    | donate _ _ => simp [Op.isAdminOp] at ha
+  · have hh : w'.st.hooks = w.st.hooks := by
+      apply Classical.byContradiction
+      intro hne
+      exact ha (hooks_admin_change_auth h (Or.inr hne)).2
+    cases op with
+    | updateAdmin _ _ => simp [Op.isAdminOp] at ha
+    | addHook _ _ => simp [Op.isAdminOp] at ha
+    | removeHook _ _ => simp [Op.isAdminOp] at ha
+    | bond _ _ => exact ⟨hh, by intro _ _ e; cases e⟩
+    | send _ _ _ _ => exact ⟨hh, by intro _ _ e; cases e⟩
+    | receive _ _ _ _ => exact ⟨hh, by intro _ _ e; cases e⟩
+    | unbond _ _ => exact ⟨hh, by intro _ _ e; cases e⟩
+    | claim _ => exact ⟨hh, by intro _ _ e; cases e⟩
+    | donate _ _ => exact ⟨hh, by intro _ _ e; cases e⟩
+
+theorem hooks_nodup_tx {w w' : World} {blk : Block} {op : Op} {out : List Out}
+    (hn : w.st.hooks.Nodup) (h : tx w blk op = .ok (w', out)) : w'.st.hooks.Nodup := by
+  obtain ⟨e, hnew⟩ := hooks_tx h
+  rw [e]
+  cases op with
+  | addHook snd a =>
+    simp only
+    rw [List.nodup_append]
+    refine ⟨hn, by simp, ?_⟩
+    intro x hx y hy
+    simp at hy; subst hy
+    intro e; subst e; exact hnew snd a rfl hx
+  | removeHook snd a => exact hn.erase _
+  | updateAdmin _ _ => exact hn
+  | bond _ _ => exact hn
+  | send _ _ _ _ => exact hn
+  | receive _ _ _ _ => exact hn
+  | unbond _ _ => exact hn
+  | claim _ => exact hn
+  | donate _ _ => exact hn
+
+theorem run_hooks_nodup {w : World} (hn : w.st.hooks.Nodup) (ops : List (Block × Op)) :
+    (run w ops).st.hooks.Nodup :=
+  run_inv (fun x => x.st.hooks.Nodup) (fun _ _ _ _ _ hi ht => hooks_nodup_tx hi ht) hn ops
+
+/-- **C14 (cw4-stake), each hook is registered once**: after any accepted instantiation and any history the
+hook list holds no address twice — so "one message per entry of the hook list"
+(`bond_unbond_diffs_truthful`) is "exactly one message per registered hook". -/
+theorem reachable_hooks_nodup {m : InstMsg} {st : State} (h : instantiate m = .ok st) (bal : AMap Addr Nat)
+    (acc : List Addr) (ops : List (Block × Op)) : (run (World.init st bal acc) ops).st.hooks.Nodup := by
+  apply run_hooks_nodup
+  simp [instantiate] at h
+  obtain ⟨adm, _, rfl⟩ := h
+  exact List.nodup_nil
+
+/-- **C14 (cw4-stake), exactly one notification per registered hook**: on every reachable world, a
+successful bond / unbond of `a` that changes `a`'s weight emits a list of messages without repetition, as
+many as there are registered hooks, and a hook gets the message `(a, old weight, new weight)` iff it is
+registered: every registered hook hears the change exactly once, nobody else hears anything. -/
+theorem exactly_one_msg_per_hook {m : InstMsg} {st : State} (hi : instantiate m = .ok st) (bal : AMap Addr Nat)
+    (acc : List Addr) (ops : List (Block × Op)) {w' : World} {blk : Block} {op : Op} {out : List Out} {a : Addr}
+    (h : tx (run (World.init st bal acc) ops) blk op = .ok (w', out)) (hs : Op.staker op = some a)
+    (hch : weightOf w'.st a ≠ weightOf (run (World.init st bal acc) ops).st a) :
+    out.Nodup ∧ out.length = (run (World.init st bal acc) ops).st.hooks.length ∧
+    ∀ hk, hk ∈ (run (World.init st bal acc) ops).st.hooks ↔
+      Out.hook hk a (weightOf (run (World.init st bal acc) ops).st a) (weightOf w'.st a) ∈ out := by
+  have hn := reachable_hooks_nodup hi bal acc ops
+  obtain ⟨ho, _⟩ := bond_unbond_diffs_truthful h hs
+  rw [ho]
+  simp only [expectedMsgs, hch, if_false]
+  refine ⟨?_, by simp, ?_⟩
+  · exact List.Pairwise.map _ (fun x y hxy e => hxy (by injection e)) hn
+  · intro hk
+    simp
+
+/-! ## A hook that is not registered hears nothing, over histories -/
+
+theorem step_hooks_not_mem {w : World} {hk : Addr} (hn : hk ∉ w.st.hooks) (blk : Block) (op : Op)
+    (hno : ∀ s a, op = .addHook s a → a.text ≠ hk) : hk ∉ (step w blk op).st.hooks := by
+  rcases step_cases w blk op with ⟨w', out, ht, hs, _, _⟩ | ⟨hs, _, _⟩
+  · rw [hs, (hooks_tx ht).1]
+    cases op with
+    | addHook snd a =>
+      simp only [List.mem_append, List.mem_singleton, not_or]
+      exact ⟨hn, fun e => hno snd a rfl e.symm⟩
+    | removeHook snd a => exact fun hm => hn (List.mem_of_mem_erase hm)
+    | updateAdmin _ _ => exact hn
+    | bond _ _ => exact hn
+    | send _ _ _ _ => exact hn
+    | receive _ _ _ _ => exact hn
+    | unbond _ _ => exact hn
+    | claim _ => exact hn
+    | donate _ _ => exact hn
+  · rw [hs]; exact hn
+
+/-- **C14 `removed_hook_silent` (cw4-stake), histories**: a hook that is not registered stays
+unregistered and receives no notification along any history, as long as no `AddHook` names it. -/
+theorem unregistered_silent {w : World} {hk : Addr} (hn : hk ∉ w.st.hooks) (ops : List (Block × Op))
+    (hno : ∀ o ∈ ops, ∀ s a, o.2 = .addHook s a → a.text ≠ hk) :
+    hk ∉ (run w ops).st.hooks ∧ ∀ k old new, Out.hook hk k old new ∉ outs w ops := by
+  induction ops generalizing w with
+  | nil => exact ⟨hn, by simp⟩
+  | cons o rest ih =>
+    have hstep := step_hooks_not_mem hn o.1 o.2 (hno o (by simp))
+    obtain ⟨i1, i2⟩ := ih hstep (fun o' ho' => hno o' (by simp [ho']))
+    refine ⟨i1, ?_⟩
+    intro k old new hm
+    simp only [outs_cons, List.mem_append] at hm
+    rcases hm with hm | hm
+    · rcases step_cases w o.1 o.2 with ⟨w', out, ht, _, ho, _⟩ | ⟨_, ho, _⟩
+      · rw [ho] at hm; exact removed_hook_silent ht hk hn k old new hm
+      · rw [ho] at hm; cases hm
+    · exact i2 k old new hm
+
+/-- **C14 `removed_hook_silent` (cw4-stake), after the removal, forever**: on a world whose hook list has
+no repetition (every reachable one, `reachable_hooks_nodup`), after a successful `RemoveHook { addr }` the
+address is no longer registered and no bond / unbond of any later history notifies it, unless and until an
+`AddHook` registers it again. -/
+theorem removed_hook_silent_run {w w' : World} {blk : Block} {snd : Addr} {a : AddrArg} {out : List Out}
+    (hn : w.st.hooks.Nodup) (h : tx w blk (.removeHook snd a) = .ok (w', out)) (ops : List (Block × Op))
+    (hno : ∀ o ∈ ops, ∀ s b, o.2 = .addHook s b → b.text ≠ a.text) :
+    out = [] ∧ a.text ∉ (run w' ops).st.hooks ∧ ∀ k old new, Out.hook a.text k old new ∉ outs w' ops := by
+  obtain ⟨_, ho, _, rfl⟩ := tx_removeHook_ok h
+  have hnot : a.text ∉ w.st.hooks.erase a.text := fun hm => ((List.Nodup.mem_erase_iff hn).mp hm).1 rfl
+  obtain ⟨h1, h2⟩ := unregistered_silent (w := { w with st := { w.st with hooks := w.st.hooks.erase a.text } })
+    hnot ops hno
+  exact ⟨ho, h1, h2⟩
+
+/-! ## A registered hook can rebuild the membership from what it hears -/
+
+/-- The membership change one notification describes. -/
+def applyNote (m : AMap Addr Nat) (k : Addr) (new : Option Nat) : AMap Addr Nat :=
+  match new with
+  | some v => m.set k v
+  | none => m.erase k
+
+/-- What hook `hk` does with the messages of a history: it ignores what is not addressed to it and applies
+each diff it receives to its replica of the member table — refusing (`none`) if the reported `old` weight is
+not what its replica holds. -/
+def replica (hk : Addr) : AMap Addr Nat → List Out → Option (AMap Addr Nat)
+  | m, [] => some m
+  | m, .hook t k old new :: rest =>
+    if t = hk then (if m.get? k = old then replica hk (applyNote m k new) rest else none)
+    else replica hk m rest
+  | m, _ :: rest => replica hk m rest
+
+theorem replica_append (hk : Addr) (m : AMap Addr Nat) (x y : List Out) :
+    replica hk m (x ++ y) = (replica hk m x).bind (fun m' => replica hk m' y) := by
+  induction x generalizing m with
+  | nil => rfl
+  | cons o rest ih =>
+    cases o with
+    | hook t k old new =>
+      simp only [List.cons_append, replica]
+      split
+      · split
+        · exact ih _
+        · rfl
+      · exact ih _
+    | bank _ _ _ => simp only [List.cons_append, replica]; exact ih _
+    | cw20Transfer _ _ _ => simp only [List.cons_append, replica]; exact ih _
+
+/-- Messages that are not addressed to `hk` leave its replica alone. -/
+theorem replica_not_addressed (hk : Addr) (m : AMap Addr Nat) {out : List Out}
+    (hh : ∀ k old new, Out.hook hk k old new ∉ out) : replica hk m out = some m := by
+  induction out with
+  | nil => rfl
+  | cons o rest ih =>
+    have ih' := ih (fun k old new hm => hh k old new (by simp [hm]))
+    cases o with
+    | hook t k old new =>
+      simp only [replica]
+      split
+      · rename_i e; subst e; exact absurd (by simp) (hh k old new)
+      · exact ih'
+    | bank _ _ _ => simp only [replica]; exact ih'
+    | cw20Transfer _ _ _ => simp only [replica]; exact ih'
+
+/-- One notification round `hooks.map (hook · a old new)` with `hk` registered exactly once. -/
+theorem replica_round (hk : Addr) (m : AMap Addr Nat) (a : Addr) (old new : Option Nat) (hooks : List Addr)
+    (hn : hooks.Nodup) (hmem : hk ∈ hooks) (hold : m.get? a = old) :
+    replica hk m (hooks.map (fun t => Out.hook t a old new)) = some (applyNote m a new) := by
+  induction hooks with
+  | nil => cases hmem
+  | cons t rest ih =>
+    simp only [List.map_cons, replica]
+    rw [List.nodup_cons] at hn
+    by_cases e : t = hk
+    · subst e
+      simp only [if_true, hold]
+      apply replica_not_addressed
+      intro k o n hm
+      simp only [List.mem_map] at hm
+      obtain ⟨x, hx, e⟩ := hm
+      injection e with e1
+      subst e1
+      exact hn.1 hx
+    · simp only [e, if_false]
+      exact ih hn.2 (by simpa [Ne.symm e] using hmem)
+
+/-- The member table after `update_membership`, as a map. -/
+theorem um_cur (s : State) (h : Nat) (a : Addr) (new : Option Nat) (hne : new ≠ s.members.get? a) :
+    (um s h a new).1.members.cur = applyNote s.members.cur a new := by
+  unfold um
+  simp only [hne, if_false]
+  cases new with
+  | some v => exact snap_cur_write_some _ _ _ _
+  | none => exact snap_cur_write_none _ _ _
+
+theorem um_replica {st : State} {out : List Out} {s : State} {h : Nat} {a : Addr} {new : Option Nat} {hk : Addr}
+    (e : (st, out) = um s h a new) (hn : s.hooks.Nodup) (hmem : hk ∈ s.hooks) :
+    replica hk s.members.cur out = some st.members.cur := by
+  obtain ⟨e1, e2⟩ := um_pair e
+  by_cases hne : new = s.members.get? a
+  · have : um s h a new = (s, []) := by unfold um; simp [hne]
+    rw [e1, e2, this]; rfl
+  · rw [e1, e2, um_cur s h a new hne, um_out]
+    simp only [hne, if_false]
+    exact replica_round hk _ a _ new s.hooks hn hmem rfl
+
+/-- One successful transaction: the messages it sends to a registered hook turn the hook's replica of the
+member table before the transaction into the member table after it. -/
+theorem replica_tx {w w' : World} {blk : Block} {op : Op} {out : List Out} {hk : Addr}
+    (h : tx w blk op = .ok (w', out)) (hn : w.st.hooks.Nodup) (hmem : hk ∈ w.st.hooks) :
+    replica hk w.st.members.cur out = some w'.st.members.cur := by
+  cases hs : Op.staker op with
+  | some a =>
+    cases op with
+    | bond snd coins =>
+      obtain ⟨_, amt, _, _, _, new, _, _, _, hu, _⟩ := tx_bond_ok h
+      exact um_replica (s := bondState w.st snd amt) hu hn hmem
+    | send snd token amt ok =>
+      obtain ⟨_, _, new, _, _, _, hu, _⟩ := tx_send_ok h
+      exact um_replica (s := bondState w.st snd amt) hu hn hmem
+    | unbond snd amt =>
+      obtain ⟨new, _, _, hu, _⟩ := tx_unbond_ok h
+      exact um_replica (s := unbondState w.st blk snd amt) hu hn hmem
+    | receive _ _ _ _ => simp [Op.staker] at hs
+    | claim _ => simp [Op.staker] at hs
+    | updateAdmin _ _ => simp [Op.staker] at hs
+    | addHook _ _ => simp [Op.staker] at hs
+    | removeHook _ _ => simp [Op.staker] at hs
+    | donate _ _ => simp [Op.staker] at hs
+  | none =>
+    obtain ⟨h1, _⟩ := silent_ops h hs
+    rw [replica_not_addressed hk _ (fun k old new => h1 hk k old new)]
+    have hm : w'.st.members = w.st.members := by
+      cases op with
+      | bond _ _ => simp [Op.staker] at hs
+      | send _ _ _ _ => simp [Op.staker] at hs
+      | unbond _ _ => simp [Op.staker] at hs
+      | receive snd sender amt ok => exact (tx_receive_never h).elim
+      | claim snd => obtain ⟨_, _, _, hst, _⟩ := tx_claim_ok h; rw [hst]
+      | updateAdmin snd x => obtain ⟨_, _, adm, rfl⟩ := tx_updateAdmin_ok h; rfl
+      | addHook snd x => obtain ⟨_, _, _, rfl⟩ := tx_addHook_ok h; rfl
+      | removeHook snd x => obtain ⟨_, _, _, rfl⟩ := tx_removeHook_ok h; rfl
+      | donate snd amt => obtain ⟨_, _, rfl⟩ := tx_donate_ok h; rfl
+    rw [hm]
+
+theorem step_hooks_mem {w : World} {hk : Addr} (hmem : hk ∈ w.st.hooks) (blk : Block) (op : Op)
+    (hstay : ∀ s a, op = .removeHook s a → a.text ≠ hk) : hk ∈ (step w blk op).st.hooks := by
+  rcases step_cases w blk op with ⟨w', out, ht, hs, _, _⟩ | ⟨hs, _, _⟩
+  · rw [hs, (hooks_tx ht).1]
+    cases op with
+    | addHook snd a => simp [hmem]
+    | removeHook snd a => exact (List.mem_erase_of_ne (Ne.symm (hstay snd a rfl))).mpr hmem
+    | updateAdmin _ _ => exact hmem
+    | bond _ _ => exact hmem
+    | send _ _ _ _ => exact hmem
+    | receive _ _ _ _ => exact hmem
+    | unbond _ _ => exact hmem
+    | claim _ => exact hmem
+    | donate _ _ => exact hmem
+  · rw [hs]; exact hmem
+
+/-- `hk` is registered at every point of the history (at the start and after each transaction). -/
+def StaysRegistered (hk : Addr) (w : World) (ops : List (Block × Op)) : Prop :=
+  ∀ n, n ≤ ops.length → hk ∈ (run w (ops.take n)).st.hooks
+
+theorem staysRegistered_cons {hk : Addr} {w : World} {o : Block × Op} {rest : List (Block × Op)}
+    (h : StaysRegistered hk w (o :: rest)) :
+    hk ∈ w.st.hooks ∧ StaysRegistered hk (step w o.1 o.2) rest := by
+  refine ⟨by simpa using h 0 (by simp), ?_⟩
+  intro n hn
+  have := h (n + 1) (by simpa using hn)
+  simpa using this
+
+/-- **C14 (cw4-stake), hooks hear every change truthfully — end to end**: a hook `hk` that is registered
+(once: every reachable world, `reachable_hooks_nodup`) and stays registered during a history can rebuild the
+member table from nothing but the notifications it receives: starting from the table at the time of
+registration and applying each received diff `(key, old, new)` in order — checking every `old` against its
+own replica — it never hits a mismatch and ends with exactly the contract's current member table.  So no
+change of any weight goes unreported, no reported change did not happen, and every reported previous / new
+weight is the true one, over whole histories of bonds, unbonds, claims, admin operations (also failed
+attempts to remove `hk`), plain transfers and failed transactions of any senders. -/
+theorem hook_replica_registered {w : World} {hk : Addr} (hn : w.st.hooks.Nodup)
+    (ops : List (Block × Op)) (hreg : StaysRegistered hk w ops) :
+    replica hk w.st.members.cur (outs w ops) = some (run w ops).st.members.cur := by
+  induction ops generalizing w with
+  | nil => rfl
+  | cons o rest ih =>
+    obtain ⟨hmem, hreg'⟩ := staysRegistered_cons hreg
+    have hn' : (step w o.1 o.2).st.hooks.Nodup := by
+      have := run_hooks_nodup hn [o]; simpa using this
+    have i1 := ih hn' hreg'
+    rw [outs_cons, replica_append, run_cons]
+    rcases step_cases w o.1 o.2 with ⟨w', out, ht, hs, ho, _⟩ | ⟨hs, ho, _⟩
+    · rw [ho, replica_tx ht hn hmem]
+      rw [hs] at i1 ⊢
+      exact i1
+    · rw [ho]
+      rw [hs] at i1 ⊢
+      exact i1
+
+/-- A registered hook stays registered as long as no `RemoveHook` names it. -/
+theorem staysRegistered_of_not_removed {w : World} {hk : Addr} (hmem : hk ∈ w.st.hooks)
+    (ops : List (Block × Op)) (hstay : ∀ o ∈ ops, ∀ s a, o.2 = .removeHook s a → a.text ≠ hk) :
+    StaysRegistered hk w ops := by
+  induction ops generalizing w with
+  | nil => intro n _; simpa using hmem
+  | cons o rest ih =>
+    have hmem' := step_hooks_mem hmem o.1 o.2 (hstay o (by simp))
+    have := ih hmem' (fun o' ho' => hstay o' (by simp [ho']))
+    intro n hn
+    cases n with
+    | zero => simpa using hmem
+    | succ k => simpa using this k (by simpa using hn)
+
+/-- **`hook_replica`** in the form "nobody asks to remove `hk`" (sufficient for `StaysRegistered`). -/
+theorem hook_replica {w : World} {hk : Addr} (hn : w.st.hooks.Nodup) (hmem : hk ∈ w.st.hooks)
+    (ops : List (Block × Op)) (hstay : ∀ o ∈ ops, ∀ s a, o.2 = .removeHook s a → a.text ≠ hk) :
+    replica hk w.st.members.cur (outs w ops) = some (run w ops).st.members.cur ∧ hk ∈ (run w ops).st.hooks := by
+  have hreg := staysRegistered_of_not_removed hmem ops hstay
+  refine ⟨hook_replica_registered hn ops hreg, ?_⟩
+  have := hreg ops.length (Nat.le_refl _)
+  simpa using this
+
+/-- The weight the hook's replica reports is the contract's: corollary of `hook_replica` for point reads. -/
+theorem hook_replica_weight {w : World} {hk : Addr} (hn : w.st.hooks.Nodup) (hmem : hk ∈ w.st.hooks)
+    (ops : List (Block × Op)) (hstay : ∀ o ∈ ops, ∀ s a, o.2 = .removeHook s a → a.text ≠ hk) :
+    ∃ m, replica hk w.st.members.cur (outs w ops) = some m ∧ ∀ a, m.get? a = weightOf (run w ops).st a :=
+  ⟨_, (hook_replica hn hmem ops hstay).1, fun _ => rfl⟩
+
+/-! ## Membership changes only by the member's own bond / unbond, over histories -/
+
+/-- **C14 / C10 (cw4-stake)**: over any history in which `a` signs no transaction the weight of `a` does
+not change — nobody but `a` (not the admin, not another staker) can change `a`'s membership. -/
+theorem weight_frame_run (a : Addr) (w : World) (ops : List (Block × Op)) (hs : ∀ o ∈ ops, Op.sender o.2 ≠ a) :
+    weightOf (run w ops).st a = weightOf w.st a := by
+  induction ops generalizing w with
+  | nil => rfl
+  | cons o rest ih =>
+    rw [run_cons, ih (step w o.1 o.2) (fun o' ho' => hs o' (by simp [ho']))]
+    rcases step_cases w o.1 o.2 with ⟨w', out, ht, hst, _, _⟩ | ⟨hst, _, _⟩
+    · rw [hst]
+      have hne := hs o (by simp)
+      cases hk : Op.staker o.2 with
+      | none => exact (silent_ops ht hk).2 a
+      | some b =>
+        have hb : b ≠ a := by
+          intro e; subst e
+          apply hne
+          cases hop : o.2 <;> rw [hop] at hk <;> simp [Op.staker] at hk <;> simp [Op.sender, hk]
+        exact (bond_unbond_diffs_truthful ht hk).2.1 a (Ne.symm hb)
+    · rw [hst]
+
+/-! ## Non-vacuity of the history-level theorems -/
+
+/-- Decidable forms of the side conditions "no `RemoveHook` / `AddHook` names `hk`". -/
+def Op.removesHook (hk : Addr) : Op → Bool
+  | .removeHook _ a => a.text == hk
+  | _ => false
+def Op.addsHook (hk : Addr) : Op → Bool
+  | .addHook _ a => a.text == hk
+  | _ => false
+
+theorem stays_of_removesHook {hk : Addr} {ops : List (Block × Op)} (h : ∀ o ∈ ops, Op.removesHook hk o.2 = false) :
+    ∀ o ∈ ops, ∀ s a, o.2 = .removeHook s a → a.text ≠ hk := by
+  intro o ho s a e
+  have := h o ho
+  rw [e] at this
+  simpa [Op.removesHook] using this
+
+theorem notAdded_of_addsHook {hk : Addr} {ops : List (Block × Op)} (h : ∀ o ∈ ops, Op.addsHook hk o.2 = false) :
+    ∀ o ∈ ops, ∀ s a, o.2 = .addHook s a → a.text ≠ hk := by
+  intro o ho s a e
+  have := h o ho
+  rw [e] at this
+  simpa [Op.addsHook] using this
+
+theorem inst_cfgMsg : instantiate cfgMsg = .ok (stOf cfgMsg) := rfl
+
+/-- after `w1` (hookA, hookB registered): alice bonds 35 (weight 3), bonds 4 (still 3), the admin removes
+hookA, alice unbonds 20 (no longer a member), mallory tries to remove hookB, alice bonds 30 again (weight 4) -/
+def laterOps : List (Block × Op) :=
+  [(b1, .bond "alice" [("ustake", 35)]), (b1, .bond "alice" [("ustake", 4)]),
+   (b1, .removeHook "admin" ⟨true, "hookA"⟩), (b1, .unbond "alice" 20),
+   (b1, .removeHook "mallory" ⟨true, "hookB"⟩), (b1, .bond "alice" [("ustake", 30)])]
+
+example : outs w1 laterOps =
+    [.hook "hookA" "alice" none (some 3), .hook "hookB" "alice" none (some 3),
+     .hook "hookB" "alice" (some 3) none, .hook "hookB" "alice" none (some 4)] := by decide
+example : (run w1 laterOps).st.members.cur = [("alice", 4)] ∧ (run w1 laterOps).st.hooks = ["hookB"] := by decide
+/-- hookB stays registered along `laterOps` (mallory's attempt to remove it fails) and rebuilds the table
+`[("alice", 4)]` -/
+example : replica "hookB" w1.st.members.cur (outs w1 laterOps) = some (run w1 laterOps).st.members.cur :=
+  hook_replica_registered (w := w1) (hk := "hookB") (by decide) laterOps (by unfold StaysRegistered; decide)
+/-- nobody names hookB in the first four transactions -/
+example := hook_replica (w := w1) (hk := "hookB") (by decide) (by decide) (laterOps.take 4)
+  (stays_of_removesHook (by decide))
+/-- hookA, removed by the third transaction, hears nothing of the last three -/
+example : ∀ k old new, Out.hook "hookA" k old new ∉ outs (run w1 (laterOps.take 3)) (laterOps.drop 3) :=
+  (unregistered_silent (w := run w1 (laterOps.take 3)) (hk := "hookA") (by decide) (laterOps.drop 3)
+    (notAdded_of_addsHook (by decide))).2
+example := reachable_hooks_nodup inst_cfgMsg [("alice", 100)] ["hookA", "hookB"]
+  [(b1, .addHook "admin" ⟨true, "hookA"⟩), (b1, .addHook "admin" ⟨true, "hookA"⟩)]
+/-- bob signs nothing in `laterOps`: his (absent) weight is untouched; alice's is not -/
+example : weightOf (run w1 laterOps).st "bob" = weightOf w1.st "bob" :=
+  weight_frame_run "bob" w1 laterOps (by decide)
+
+/-- **admin cleared (cw4-stake)**: the admin gives up the role; afterwards neither the former admin nor
+anybody else can add or remove a hook or install an admin, while staking goes on and still notifies the
+hooks registered at that moment. -/
+def frozenWorld : World := run w1 [(b1, .updateAdmin "admin" none)]
+def frozenOps : List (Block × Op) :=
+  [(b1, .addHook "admin" ⟨true, "hookC"⟩), (b1, .removeHook "admin" ⟨true, "hookA"⟩),
+   (b1, .updateAdmin "admin" (some ⟨true, "admin"⟩)), (b1, .updateAdmin "mallory" (some ⟨true, "mallory"⟩)),
+   (b1, .bond "alice" [("ustake", 35)])]
+example : frozenWorld.st.admin = none := by decide
+example : (run frozenWorld frozenOps).st.admin = none ∧ (run frozenWorld frozenOps).st.hooks = ["hookA", "hookB"] :=
+  admin_none_frozen_run frozenWorld (by decide) frozenOps
+example : weightOf (run frozenWorld frozenOps).st "alice" = some 3 ∧
+    outs frozenWorld frozenOps = [.hook "hookA" "alice" none (some 3), .hook "hookB" "alice" none (some 3)] := by
+  decide
+
+theorem tx_ok_of_isOk {w : World} {blk : Block} {op : Op} (h : (tx w blk op).isOk = true) :
+    ∃ w' out, tx w blk op = .ok (w', out) ∧ step w blk op = w' := by
+  rcases step_cases w blk op with ⟨w', out, ht, hs, _, _⟩ | ⟨_, _, hf⟩
+  · exact ⟨w', out, ht, hs⟩
+  · rw [h] at hf; cases hf
+
+/-- `exactly_one_msg_per_hook` on alice's first bond in `w1` (two hooks): two distinct messages -/
+example : ∃ w' out, tx w1 b1 (.bond "alice" [("ustake", 35)]) = .ok (w', out) ∧ out.Nodup ∧ out.length = 2 ∧
+    Out.hook "hookB" "alice" none (some 3) ∈ out := by
+  obtain ⟨w', out, ht, hs⟩ := tx_ok_of_isOk (w := w1) (blk := b1) (op := .bond "alice" [("ustake", 35)]) (by decide)
+  have hw : weightOf w'.st "alice" = some 3 := by rw [← hs]; decide
+  have hch : weightOf w'.st "alice" ≠ weightOf w1.st "alice" := by rw [hw]; decide
+  obtain ⟨h1, h2, h3⟩ := exactly_one_msg_per_hook inst_cfgMsg [("alice", 100)] ["hookA", "hookB"] _ ht rfl hch
+  refine ⟨w', out, ht, h1, h2, ?_⟩
+  have := (h3 "hookB").mp (by decide)
+  rw [hw] at this
+  exact this
+
+/-- `removed_hook_silent_run` on the third transaction of `laterOps` and the three after it -/
+example : ∃ w' out, tx (run w1 (laterOps.take 2)) b1 (.removeHook "admin" ⟨true, "hookA"⟩) = .ok (w', out) ∧
+    "hookA" ∉ (run w' (laterOps.drop 3)).st.hooks ∧
+    ∀ k old new, Out.hook "hookA" k old new ∉ outs w' (laterOps.drop 3) := by
+  obtain ⟨w', out, ht, _⟩ := tx_ok_of_isOk (w := run w1 (laterOps.take 2)) (blk := b1)
+    (op := .removeHook "admin" ⟨true, "hookA"⟩) (by decide)
+  obtain ⟨_, h2, h3⟩ := removed_hook_silent_run (a := ⟨true, "hookA"⟩) (by decide) ht (laterOps.drop 3)
+    (notAdded_of_addsHook (by decide))
+  exact ⟨w', out, ht, h2, h3⟩
+
 end CwPlus.Props.C14Stake
